@@ -271,6 +271,16 @@ pub fn check(v: &View) -> Vec<Violation> {
                 _ => {}
             }
         }
+        // consume / consume_sync resolve "exactly when the actor has terminated": an error that
+        // comes back while the actor is still on its way out (e.g. inside a slow `stopped()`)
+        // is too early, and the value can then never be handed out
+        if !v.fault_injected(a) {
+            for o in joins.iter().filter(|o| matches!(o.inner, Op::Consume { .. } | Op::ConsumeSync { .. }) && o.ended()) {
+                if matches!(o.res, Some(Res::Err(_))) && a.dead.is_none_or(|d| o.end.unwrap() < d) {
+                    out.push(violation(P, "consume-failed-before-termination", crate::props::c02::op_name(o.inner), format!("actor {aidx}: {:?} returned {:?} at seq {} while the actor had not terminated yet (dead {:?})", o.inner, o.res, o.end.unwrap(), a.dead)));
+                }
+            }
+        }
         if somes >= 1 && joins.iter().filter(|o| o.ended()).count() >= 2 {
             crate::log::probe("c17_second_join");
         }
